@@ -25,28 +25,55 @@ LinearBad(o) ==
        \cup (IF o.exact /\ ~(FLe(CAbs(CSub(a, o.ea)), allow) /\ FLe(CAbs(CSub(b, o.eb)), allow)) THEN {"exactly_linear_data_reproduced"} ELSE {})
 
 Invalid(o) == FLt(o.tol, F0) \/ FLt(o.damping, F0) \/ (o.variant = "fd" /\ FLt(o.h, F0)) \/ Len(o.xs) # Len(o.ys)
-LmBad(o) ==
-  IF o.st = "panic" THEN {"never_panics"}
-  ELSE IF Invalid(o) THEN (IF o.st = "err" THEN {} ELSE {"invalid_settings_give_err"})
-  ELSE IF o.st = "budget" THEN {"levenberg_marquardt_terminates"}
-  ELSE IF o.st # "ok" THEN (IF o.mustok THEN {"well_posed_fit_returns_ok"} ELSE {})
+LmBadOf(o, st, params) ==
+  IF st = "panic" THEN {"never_panics"}
+  ELSE IF Invalid(o) THEN (IF st = "err" THEN {} ELSE {"invalid_settings_give_err"})
+  ELSE IF st = "budget" THEN {"levenberg_marquardt_terminates"}
+  ELSE IF st # "ok" THEN (IF o.mustok THEN {"well_posed_fit_returns_ok"} ELSE {})
   ELSE
-    LET p == o.params
+    LET p == params
         target == IF IsLinearModel(o.model) THEN LinearLsq(o.model, o.xs, o.ys, o.v) ELSE o.truth
         scale == FAdd(F1, FMaxAbs(target))
-        \* accuracy governed by the tolerance: the stopping rule is on the change of the sum of squares, so
-        \* parameters are accurate to about sqrt(tol)
-        bound == FMul(FMul(KF, scale), FAdd(FSqrt(o.tol), FOfDec("1e-7")))
+        \* accuracy governed by the tolerance and by the conditioning of the design: the stopping rule is on the
+        \* change of the sum of squares S, and S - S_min ~ d^T (J^T J) d for a parameter error d, so parameters are
+        \* accurate to about sqrt(tol / lambda_min(J^T J)); lam is a proven lower bound of lambda_min at the target,
+        \* capped at 1; designs with lam < 1e-3 are not "well-conditioned" and only termination / finiteness are judged
+        lam == FMin(F1, LambdaMinLower(NormalMatrix(o.model, o.xs, target)))
+        wellc == FLe(FOfDec("1e-3"), lam)
+        bound == FMul(FMul(KF, scale), FAdd(FSqrt(FDiv(o.tol, lam)), FOfDec("1e-7")))
     IN (IF ~VFinite(p) THEN {"fit_result_is_finite"} ELSE {})
-       \cup (IF VFinite(p) /\ IsLinearModel(o.model) /\ ~FLe(VDistInf(p, target), bound) THEN {"linear_model_gets_the_least_squares_parameters"} ELSE {})
-       \cup (IF VFinite(p) /\ ~IsLinearModel(o.model) /\ o.recover /\ ~FLe(VDistInf(p, target), bound)
+       \cup (IF VFinite(p) /\ wellc /\ IsLinearModel(o.model) /\ ~FLe(VDistInf(p, target), bound) THEN {"linear_model_gets_the_least_squares_parameters"} ELSE {})
+       \cup (IF VFinite(p) /\ wellc /\ ~IsLinearModel(o.model) /\ o.recover /\ ~FLe(VDistInf(p, target), bound)
                THEN {"model_generated_data_recover_the_true_parameters"} ELSE {})
 
+(* Attribution to the recorded known finding (known-findings.txt, C17): the harness also ran every curve_fit
+   case through the "twin" -- optimize/mod.rs as it stands in the tree under test with the one statement of
+   jac_finite_differences corrected (above + below -> above - below).  A conjunct the real code breaks on a
+   case where the twin satisfies the whole contract is attributed to that statement and reported under the
+   qualified name  <conjunct>@jac_finite_differences_sign ; a conjunct broken although the twin is broken too
+   (or by curve_fit_jac / linear_fit, which do not use that statement) keeps its plain name and is never
+   covered by the known finding. *)
+LmBad(o) ==
+  Bind(LmBadOf(o, o.st, o.params), LAMBDA bad :
+    IF bad = {} \/ o.variant # "fd" THEN bad
+    ELSE IF LmBadOf(o, o.twin_st, o.twin_params) = {} THEN {c \o "@jac_finite_differences_sign" : c \in bad}
+    ELSE bad)
+
 Check(o) == IF o.variant = "linear" THEN LinearBad(o) ELSE LmBad(o)
-VARIABLE i
-Init == i = 0
+\* coverage counters: LM observations that returned Ok, and those of them whose design was well-conditioned
+\* enough for the accuracy conjuncts to be judged (vacuity guard, reported in the evidence)
+WellCond(o) ==
+  LET target == IF IsLinearModel(o.model) THEN LinearLsq(o.model, o.xs, o.ys, o.v) ELSE o.truth
+  IN FLe(FOfDec("1e-3"), LambdaMinLower(NormalMatrix(o.model, o.xs, target)))
+VARIABLES i, nok, nwc
+Init == i = 0 /\ nok = 0 /\ nwc = 0
 Next == /\ i < Len(Obs)
         /\ i' = i + 1
         /\ \E bad \in {Check(Obs[i + 1])} : bad # {} => PrintT(<<"VIOL", i + 1, bad>>)
+        /\ LET o == Obs[i + 1]
+               lm == o.variant # "linear" /\ o.st = "ok" /\ ~Invalid(o)
+           IN /\ nok' = nok + (IF lm THEN 1 ELSE 0)
+              /\ nwc' = nwc + (IF lm /\ WellCond(o) THEN 1 ELSE 0)
+        /\ (i' = Len(Obs)) => PrintT(<<"STAT", "lm_ok_runs", nok', "accuracy_judged_well_conditioned", nwc'>>)
         /\ (i' = Len(Obs)) => PrintT(<<"CHECKED", Len(Obs)>>)
 =============================================================================
